@@ -80,9 +80,10 @@ func ruleC13(c *Ctx) {
 	c.RequireCall(R, epoch, true, pVal+".checkoutRewardCoinbase")
 
 	crc := c.ScopeFunc(c.Func(pVal, "checkoutRewardCoinbase"))
-	c.RequireGuard(G, crc, "reward count", readsField("protocol/state.Checkpoint", "Rewards"), callsKey("builtin:len"))
+	rewardTable := c.fieldOrParam(crc.F, "protocol/state.Checkpoint", "Rewards")
+	c.RequireGuard(G, crc, "reward count", rewardTable, callsKey("builtin:len"))
 	c.rewardCountExact(G)
-	c.RequireGuard(G, crc, "each reward amount", readsField("protocol/state.Checkpoint", "Rewards"), func(v ssa.Value) bool { _, ok := v.(*ssa.Lookup); return ok })
+	c.RequireGuard(G, crc, "each reward amount", rewardTable, func(v ssa.Value) bool { _, ok := v.(*ssa.Lookup); return ok })
 
 	// --- transaction
 	vt := c.ScopeFunc(c.Func(pVal, "ValidateTx"))
